@@ -168,6 +168,38 @@ def check_c07(seed, tier):
         finally:
             wipe_user_cache()
             clean()
+    # two DIFFERENT product directories whose paths look alike (same text in Unicode normalisation forms NFC / NFD) holding
+    # images of the same name: a cache made for one must never serve the other
+    import tempfile
+    import unicodedata
+    for trial in range(1 if tier == "quick" else 6):
+        level = rng.choice(["1.1", "1.5"])
+        cfg_a = {"seed": rng.randrange(10**9), "level": level, "images": [("HH", None)], "n_lines": rng.randint(2, 4), "n_pixels": 2}
+        cfg_b = dict(cfg_a, seed=rng.randrange(10**9), n_lines=cfg_a["n_lines"] + 1)
+        prod_a, prod_b = products.build(cfg_a), products.build(cfg_b)
+        stem = tempfile.mkdtemp(prefix="lookalike-", dir=common.SCRATCH)
+        name = "donn\u00e9es-\u00c5ngstr\u00f6m"
+        pa, pb = os.path.join(stem, unicodedata.normalize("NFC", name)), os.path.join(stem, unicodedata.normalize("NFD", name))
+        evals += 1
+        distinct.add(("lookalike-roots", level, cfg_a["n_lines"]))
+        case = {"cfg_a": cfg_a, "cfg_b": cfg_b, "scenario": "cache created for a product in the NFC-spelled directory, the product in the NFD-spelled directory opened with use_cache=True"}
+        wipe_user_cache()
+        try:
+            synth.write_product(prod_a, pa)
+            synth.write_product(prod_b, pb)
+            if os.path.samefile(pa, pb):
+                continue  # a filesystem that folds the two spellings: nothing to test
+            _open(pa, use_cache=False, create_cache=True)
+            ref = fp(_open(pb, use_cache=False))
+            got = fp(_open(pb, use_cache=True))
+            d = treecmp.diff(ref, got)
+            if d:
+                viol.append({"case": case, "what": "a cache made for another directory was used: " + d, "key": "cache-differs:local"})
+        except Exception as e:  # noqa: BLE001
+            viol.append({"case": case, "what": f"{type(e).__name__}: {e}"[:300], "key": common.failure_site(e)})
+        finally:
+            wipe_user_cache()
+            shutil.rmtree(stem, ignore_errors=True)
     return {"name": "oracle:C07 cache transparency", "evaluations": evals, "distinct": len(distinct), "violations": viol, "samples": samples}
 
 
